@@ -156,7 +156,8 @@ pub fn size_class(rng: &mut Rng, allow_huge: bool) -> usize {
         900..=979 => 50 + rng.below(400) as usize,
         980..=997 => 500 + rng.below(4500) as usize,
         _ => {
-            if allow_huge {
+            // the documented size limit: one expansion takes seconds, so only 1 run in 10 000
+            if allow_huge && rng.chance(1, 20) {
                 65534
             } else {
                 2000
